@@ -222,11 +222,16 @@ func (e *encoderBincBytes) kArrayWMbs(rv reflect.Value, ti *typeInfo, isSlice bo
 		fn = e.kSeqFn(ti.elem)
 	}
 
+	elemNotAddr := !isSlice && e.h.NoAddressableReadonly && !rv.CanAddr()
+
 	j := 0
 	e.c = containerMapKey
 	e.e.WriteMapElemKey(true)
 	for {
 		rvv := rvArrayIndex(rv, j, ti, isSlice)
+		if elemNotAddr {
+			rvv = rvNotAddressable(rvv)
+		}
 		if builtin {
 			e.encodeIB(rv2i(baseRVRV(rvv)))
 		} else {
@@ -267,11 +272,16 @@ func (e *encoderBincBytes) kArrayW(rv reflect.Value, ti *typeInfo, isSlice bool)
 		fn = e.kSeqFn(ti.elem)
 	}
 
+	elemNotAddr := !isSlice && e.h.NoAddressableReadonly && !rv.CanAddr()
+
 	j := 0
 	e.c = containerArrayElem
 	e.e.WriteArrayElem(true)
 	for {
 		rvv := rvArrayIndex(rv, j, ti, isSlice)
+		if elemNotAddr {
+			rvv = rvNotAddressable(rvv)
+		}
 		if builtin {
 			e.encodeIB(rv2i(baseRVRV(rvv)))
 		} else {
@@ -648,6 +658,10 @@ func (e *encoderBincBytes) kMap(f *encFnInfo, rv reflect.Value) {
 	}
 
 	var rvv = mapAddrLoopvarRV(f.ti.elem, vtypeKind)
+	if e.h.NoAddressableReadonly {
+
+		rvv = rvNotAddressable(rvv)
+	}
 
 	rtkey := f.ti.key
 	var keyTypeIsString = stringTypId == rt2id(rtkey)
@@ -670,6 +684,9 @@ func (e *encoderBincBytes) kMap(f *encFnInfo, rv reflect.Value) {
 	}
 
 	var rvk = mapAddrLoopvarRV(f.ti.key, ktypeKind)
+	if e.h.NoAddressableReadonly {
+		rvk = rvNotAddressable(rvk)
+	}
 
 	var it mapIter
 	mapRange(&it, rv, rvk, rvv, true)
@@ -4358,11 +4375,16 @@ func (e *encoderBincIO) kArrayWMbs(rv reflect.Value, ti *typeInfo, isSlice bool)
 		fn = e.kSeqFn(ti.elem)
 	}
 
+	elemNotAddr := !isSlice && e.h.NoAddressableReadonly && !rv.CanAddr()
+
 	j := 0
 	e.c = containerMapKey
 	e.e.WriteMapElemKey(true)
 	for {
 		rvv := rvArrayIndex(rv, j, ti, isSlice)
+		if elemNotAddr {
+			rvv = rvNotAddressable(rvv)
+		}
 		if builtin {
 			e.encodeIB(rv2i(baseRVRV(rvv)))
 		} else {
@@ -4403,11 +4425,16 @@ func (e *encoderBincIO) kArrayW(rv reflect.Value, ti *typeInfo, isSlice bool) {
 		fn = e.kSeqFn(ti.elem)
 	}
 
+	elemNotAddr := !isSlice && e.h.NoAddressableReadonly && !rv.CanAddr()
+
 	j := 0
 	e.c = containerArrayElem
 	e.e.WriteArrayElem(true)
 	for {
 		rvv := rvArrayIndex(rv, j, ti, isSlice)
+		if elemNotAddr {
+			rvv = rvNotAddressable(rvv)
+		}
 		if builtin {
 			e.encodeIB(rv2i(baseRVRV(rvv)))
 		} else {
@@ -4784,6 +4811,10 @@ func (e *encoderBincIO) kMap(f *encFnInfo, rv reflect.Value) {
 	}
 
 	var rvv = mapAddrLoopvarRV(f.ti.elem, vtypeKind)
+	if e.h.NoAddressableReadonly {
+
+		rvv = rvNotAddressable(rvv)
+	}
 
 	rtkey := f.ti.key
 	var keyTypeIsString = stringTypId == rt2id(rtkey)
@@ -4806,6 +4837,9 @@ func (e *encoderBincIO) kMap(f *encFnInfo, rv reflect.Value) {
 	}
 
 	var rvk = mapAddrLoopvarRV(f.ti.key, ktypeKind)
+	if e.h.NoAddressableReadonly {
+		rvk = rvNotAddressable(rvk)
+	}
 
 	var it mapIter
 	mapRange(&it, rv, rvk, rvv, true)
